@@ -12,7 +12,9 @@ What is proved here is about the Lean port of query/parse.go (C07/Model.lean) an
 (C06/Spec.lean); which clauses are theorems and which are validated by correspondence only is listed in
 props/C06.json.
 -/
-import ZoektModel.C06.Lemmas
+import ZoektModel.C06.Opens
+import ZoektModel.C06.Compose
+import ZoektModel.C06.WF
 import ZoektModel.Generated.ParseTables
 namespace ZoektModel.C06
 open ZoektModel ZoektModel.C07
@@ -180,5 +182,100 @@ theorem parse_tail_preserves_meaning (c : Corpus) (he : EmptyOK c) (q r : Q)
 /-- parse-time `caseScopeQ` wrappers never change which documents are selected -/
 theorem case_scope_wrapper_transparent (c : Corpus) (q : Q) : evalQ c (stripCaseScopes q) = evalQ c q :=
   evalQ_strip c q
+
+/-! ### the central theorem: `Parse (render g)` selects what the documentation says -/
+
+/-- **`token_roundtrip`** (unquoted and quoted): a rendered atom — any field spelling; value unquoted, made of plain
+    bytes (no blank, no quote), backslash escapes and balanced parentheses, or in the documented quoted form — is read back by
+    `nextToken` as ONE token of the kind of its field whose text is the value (for `meta.`: `<name>:<value>`) and
+    whose consumed input is exactly the rendering, whatever follows (end of input, blank, closing parenthesis). -/
+theorem token_roundtrip_atom (f : Field) (a : Nat) (q : Bool) (t n rest : B) (hg : goodAtom f q t n = true)
+    (hf : followOK rest = true) :
+    nextToken (renderE (.atom f a q t n) ++ rest) =
+      .ok (some ⟨tokTypeOf f, tokTextOf f t n, renderE (.atom f a q t n)⟩) :=
+  token_roundtrip f a q t n rest hg hf
+
+/-- **the parser reads a rendered expression back**: `parseExpr` returns the item `itemE` stands for and consumes
+    exactly the rendering (induction over the grammar, mutual with the token loop on conjunctions and or-chains) -/
+theorem parser_roundtrip_expr (O : Oracle) (e : E) (x : Q) (rest : B) (fuel : Nat) (hg : goodE e = true)
+    (hf : followOK rest = true) (hx : itemE O e = .ok x) (hfuel : 3 * (renderE e ++ rest).length + 1 ≤ fuel) :
+    parseExpr O fuel (renderE e ++ rest) = .ok (some x, (renderE e).length) :=
+  rt_E O e x rest fuel (GoodE_of_goodE e hg) hf hx hfuel
+
+/-- **`parseExprList`'s token loop on a rendered query collects exactly `itemsQ`** (`orOp` between alternatives) -/
+theorem parser_roundtrip_query (O : Oracle) (q : Qy) (its : List Q) (rest : B) (g : Nat) (acc : List Q)
+    (hg : goodQ q = true) (hf : followOK rest = true) (hx : itemsQ O q = .ok its)
+    (hfuel : 3 * (renderQ q ++ rest).length + 2 ≤ g + nQ q) :
+    pelLoop O (g + nQ q) (renderQ q ++ rest) acc = pelLoop O g rest (acc ++ its) :=
+  rt_Q O q its rest g acc (GoodQ_of_goodQ q hg) hf hx hfuel
+
+/-- `Parse` of a rendering = the parser's post-processing applied to the items the tree stands for -/
+theorem parse_render_eq_abstract (O : Oracle) (g : Qy) (q : Q) (hg : goodQ g = true) (h : abstractParse O g = .ok q) :
+    parse O (renderQ g) = .ok q :=
+  parse_render O g q (GoodQ_of_goodQ g hg) h
+
+/-- the post-processing of the items of a grammar tree (`finishList`, `parseOperators`, per group; then
+    `stripCaseScopes`, `Simplify`) selects exactly what the documentation says (`semQ`) -/
+theorem abstract_parse_sem (c : Corpus) (he : EmptyOK c) (O : Oracle) (hO : AutoCaseAgrees O) (g : Qy) (q : Q)
+    (hok : semOKQ g = true) (hl : (typesOfQ g).length ≤ 1) (h : abstractParse O g = .ok q) (d : Nat) (hd : d < c.n) :
+    evalQ c q d = semQ O c none g d :=
+  abstractParse_sem c he O hO g q hok hl h d hd
+
+/-- **C06_parse_sem (partial).** For every grammar tree `g` of the documented EBNF whose rendering is covered
+    (`goodQ`, decidable: unquoted values of plain bytes, backslash escapes and balanced parentheses; groups that the tokenizer opens — i.e. not the known finding "tight
+    group") and for which the documented meaning is defined (`semOKQ`, decidable: no `regex:` field — the other known
+    finding —, documented `type:` values, at most one `type:` per group, no `-` on a directive), if the items of `g`
+    are acceptable to the parser (`abstractParse O g = ok q`: every atom is a valid value for its field and every
+    `or` alternative has an operand) then the rendering parses to that very tree, `Parse (render g) = ok q`, and `q`
+    selects exactly the documents `semQ g` selects — on every corpus in which an empty pattern matches everything, for
+    every oracle whose `case:auto` agrees with "the pattern has an upper-case letter". -/
+theorem C06_parse_sem_partial (c : Corpus) (he : EmptyOK c) (O : Oracle) (hO : AutoCaseAgrees O) (g : Qy) (q : Q)
+    (hgood : goodQ g = true) (hok : semOKQ g = true) (hl : (typesOfQ g).length ≤ 1)
+    (hwf : abstractParse O g = .ok q) :
+    parse O (renderQ g) = .ok q ∧ ∀ d, d < c.n → evalQ c q d = semQ O c none g d :=
+  ⟨parse_render_eq_abstract O g q hgood hwf, fun d hd => abstract_parse_sem c he O hO g q hok hl hwf d hd⟩
+
+/-- the parser accepts the items of every well-formed tree: every atom a valid value for its field (`wfQ`: a pattern
+    `regexp/syntax` parses, a regexp `regexp.Compile` accepts, `yes`/`no` flags, non-empty `sym:`), and every `or` of
+    every group with an operand on both sides (`operandsOK`) -/
+theorem well_formed_is_accepted (O : Oracle) (hO : AutoCaseAgrees O) (g : Qy) (hw : wfQ O g = true)
+    (hop : operandsOK g = true) (hok : semOKQ g = true) : ∃ q, abstractParse O g = .ok q :=
+  abstractParse_ok O hO g hw hop hok
+
+/-- **C06_parse_sem (partial), existence form**: every covered, defined and well-formed tree's rendering parses, and
+    the parsed query selects exactly the documents the documentation says. All five conditions on `g` are
+    decidable (`wfQ` given the behaviour `O` of the regexp library). -/
+theorem C06_parse_sem_partial_wf (c : Corpus) (he : EmptyOK c) (O : Oracle) (hO : AutoCaseAgrees O) (g : Qy)
+    (hgood : goodQ g = true) (hok : semOKQ g = true) (hl : (typesOfQ g).length ≤ 1)
+    (hw : wfQ O g = true) (hop : operandsOK g = true) :
+    ∃ q, parse O (renderQ g) = .ok q ∧ ∀ d, d < c.n → evalQ c q d = semQ O c none g d := by
+  obtain ⟨q, hq⟩ := well_formed_is_accepted O hO g hw hop hok
+  exact ⟨q, C06_parse_sem_partial c he O hO g q hgood hok hl hq⟩
+
+/-- a blank after the opening parenthesis is a sufficient, purely syntactic condition for a group to be covered -/
+theorem group_with_leading_blank_is_covered (pr : Bool) (q : Qy) (h : goodQ q = true) :
+    goodE (.grp true pr q) = true := by
+  simp only [goodE, h, Bool.true_and]
+  exact opensAsGroup_padL pr q
+
+/-- **the full statement is false** (known finding `tight group`): `(file:main)` is in the documented grammar, but the
+    parser reads it as the single pattern `(file:main)`; on a one-document corpus whose file name matches `main` the
+    documented meaning selects the document and the parsed query does not. -/
+def tightWitness : Qy := .one (.one (.grp false false (.one (.one (.atom .file 0 false [109,97,105,110] [])))))
+def tightOracle : Oracle := ⟨fun _ => .lit [102,105,108,101,58,109,97,105,110], fun _ => true, fun _ => none⟩
+def tightCorpus : Corpus := ⟨[0], [⟨⟨102, [109,97,105,110], []⟩, [true], [true]⟩]⟩
+theorem C06_parse_sem_full_false :
+    ∃ q, parse tightOracle (renderQ tightWitness) = .ok q ∧
+      evalQ tightCorpus q 0 = false ∧ semQ tightOracle tightCorpus none tightWitness 0 = true ∧
+      goodQ tightWitness = false := by
+  refine ⟨.substr [102,105,108,101,58,109,97,105,110] false false false [40,102,105,108,101,58,109,97,105,110,41],
+    by rfl, by decide, by decide, by decide⟩
+
+/-! non-vacuity of `C06_parse_sem_partial`: `( file:main) or -foo case:yes` is covered and defined -/
+def exampleTree : Qy :=
+  .or (.one (.grp true false (.one (.one (.atom .file 0 false [109,97,105,110] [])))))
+      (.one (.cons (.neg (.atom .text 0 false [102,111,111] [])) (.one (.caseD 0))))
+example : goodQ exampleTree = true ∧ semOKQ exampleTree = true ∧ (typesOfQ exampleTree).length ≤ 1 ∧
+    operandsOK exampleTree = true ∧ wfQ tightOracle exampleTree = true := by decide
 
 end ZoektModel.C06
